@@ -92,7 +92,8 @@ PROPS["C03"] = {
 }
 
 PROPS["C01"] = {
-    "deps": ["Proofs/C01.vo", "Proofs/C09_Final.vo", "Proofs/C01_Text.vo"],
+    "deps": ["Proofs/C01.vo", "Proofs/C09_Final.vo", "Proofs/C01_Text.vo", "Proofs/EndToEnd.vo"],
+    "more_props": ["Props/EndToEnd.v"],
     "props": "Props/C01.v",
     "suites": [("walk", 5000, 40000), ("reader", 600, 12000), ("hist", 400, 8000), ("pool", 1500, 12000)],
     "extra": [extras.large_molecules],
